@@ -229,6 +229,10 @@ def build(kind, n, vals, side):
         return L.SpatialInertia(abs(v[0]) + 1.0, list(v[1:4]), np.diag(np.abs(v[3:6]) + 1.0)), None
     if kind == "DualQuaternion":
         a, b = arr(vals["q"][idx[0]]), arr(vals["q"][(idx[0] + 1) % 3])
+        if side == "R":
+            # a plain dual quaternion may legitimately carry a UnitQuaternion as its real part
+            u = refs.q_of(vals["p3"][idx[0]]["rot"])
+            return L.DualQuaternion(L.UnitQuaternion(u.copy()), L.Quaternion(b.copy())), [u, b]
         return L.DualQuaternion(L.Quaternion(a.copy()), L.Quaternion(b.copy())), [a, b]
     if kind == "UnitDualQuaternion":
         T = refs.pose3_of(vals["p3"][idx[0]])
